@@ -3,9 +3,11 @@
 //! log (begin is flushed before walrus is invoked, so a crash is attributable).
 
 mod probe;
+mod scen_build;
 mod scen_cfg;
 mod scen_gate;
 mod scen_hist;
+mod scen_replace;
 mod scen_rt;
 mod scen_visit;
 mod util;
@@ -37,6 +39,8 @@ fn run_case(idx: u64, c: &CaseDesc, w: &mut Writer) {
             "gate" => scen_gate::run(input, &mut end),
             "cfg" => scen_cfg::run(input, &mut end),
             "hist" => scen_hist::run(input, &mut end),
+            "replace" => scen_replace::run(input, &mut end),
+            "build" => scen_build::run(input, &mut end),
             "visit" => scen_visit::run(input, &mut end),
             other => end.push_s("harness_error", &format!("unknown scenario {}", other)),
         }
